@@ -224,6 +224,12 @@ def run_milp(case, ses):
     S = []
     for row in cm.rows():
         S += hold_terms(row, env, z3)
+    # domains of the user's variables as declared (binary = {0, 1}); integrality comes from the z3 sort
+    from ..models import p_name
+    for nm, arr_, vt in cm.o.dvars:
+        if vt == 'B':
+            for p in arr_.reshape(-1):
+                S += [env[p_name(p)] >= 0, env[p_name(p)] <= 1]
     so, vo = ses.optimum(S + env.defs, vs[0], label=name + '/optS', ints=cm.cp.int_vars(vs))
     sp, vp = ses.optimum(P, vs[0], label=name + '/optP', ints=cm.cp.int_vars(vs))
     with quiet():
